@@ -50,12 +50,9 @@ func inBytesCompare(fr *Frame, fn *ssa.Function, args []Term, st *State, site ss
 	u := fr.u
 	u.features["strlt"] = true
 	a, b := BStr(args[0]), BStr(args[1])
-	r := u.fresh("cmp", SInt)
-	u.assume(True, And(Le(IntLit(-1), r), Le(r, IntLit(1))))
-	u.assume(True, Eq(Lt(r, IntLit(0)), StrLt(a, b)))
-	u.assume(True, Eq(Eq(r, IntLit(0)), Eq(a, b)))
-	u.assume(True, Eq(Gt(r, IntLit(0)), StrLt(b, a)))
-	return []Term{r}, st, true
+	// exact, given that the order is total: -1 / 0 / +1
+	r := Ite(StrLt(a, b), IntLit(-1), Ite(Eq(a, b), IntLit(0), IntLit(1)))
+	return []Term{u.define("cmp", r)}, st, true
 }
 
 func inBytesEqual(fr *Frame, fn *ssa.Function, args []Term, st *State, site ssa.Instruction, av []ssa.Value) ([]Term, *State, bool) {
@@ -155,11 +152,9 @@ func (fr *Frame) sortPermute(st *State, s Term, et types.Type, argVal ssa.Value)
 	inR := func(x Term) Term { return And(Le(IntLit(0), x), Lt(x, n)) }
 	u.assume(st.pc, Forall([]Term{i}, Implies(inR(i), And(inR(p(i)), Eq(q(p(i)), i))), []Term{p(i)}))
 	u.assume(st.pc, Forall([]Term{i}, Implies(inR(i), And(inR(q(i)), Eq(p(q(i)), i))), []Term{q(i)}))
+	u.assume(st.pc, Forall([]Term{i}, Implies(inR(i), And(inR(q(i)), Eq(p(q(i)), i))), []Term{p(i)}))
 	sz := int64(w.sizeOf(et))
-	at := func(idx Term) Term { return Elem(SPtr(s), Mul(idx, IntLit(sz))) }
-	if sz == 1 {
-		at = func(idx Term) Term { return Elem(SPtr(s), idx) }
-	}
+	at := func(idx Term) Term { return ElemS(SPtr(s), idx, sz) }
 	l := Sym("l!", SLoc)
 	for _, c := range fr.leafCellsOf(et) {
 		vs := w.sortOf(c.typ)
@@ -181,6 +176,8 @@ func (fr *Frame) sortPermute(st *State, s Term, et types.Type, argVal ssa.Value)
 			cellIdx = func(a Term) Term { return a }
 		}
 		u.assume(st.pc, Forall([]Term{i}, Implies(inR(i), Eq(Select(h2, cellIdx(at(i)), vs), Select(h, cellIdx(at(p(i))), vs))), []Term{Select(h2, cellIdx(at(i)), vs)}))
+		// every old element is found at position pinv(i) of the result (trigger: a mention of the old element)
+		u.assume(st.pc, Forall([]Term{i}, Implies(inR(i), And(inR(q(i)), Eq(Select(h2, cellIdx(at(q(i))), vs), Select(h, cellIdx(at(i)), vs)))), []Term{Select(h, cellIdx(at(i)), vs)}))
 		inRange := And(Eq(Obj(l), Obj(SPtr(s))), Le(Off(SPtr(s)), Off(l)), Lt(Off(l), Add(Off(SPtr(s)), Mul(n, IntLit(sz)))))
 		u.assume(st.pc, Forall([]Term{l}, Implies(Not(inRange), Eq(Select(h2, l, vs), Select(h, l, vs))), []Term{Select(h2, l, vs)}))
 		u.recordWriteTerm(fr, c.key, SPtr(s), argVal)
